@@ -155,6 +155,10 @@ var operators = []map[string]tokType{
 		"~>": tokBacon,
 		",":  tokComma,
 	},
+
+	// Composer constraints are not implemented yet; without operators only a
+	// plain version parses and anything else is reported as an error.
+	Composer: {},
 }
 
 func (sys System) typeOf(r rune) uint8 {
